@@ -47,9 +47,10 @@ static const int kNProtos = (int) (sizeof(kProtos) / sizeof(kProtos[0]));
 
 struct World {
 	const Proto *p;
-	nng_socket   s[2];
-	nng_dialer   d;
-	bool         connected = false;
+	nng_socket   s[3]; // 0 = socket under test, 1 and 2 = peers of the matching protocol
+	nng_dialer   d, d2;
+	bool         connected = false, connected2 = false;
+	std::vector<nng_pipe> pipes; // live pipes of the socket under test, in order of arrival
 	nng_msg     *last[2]   = {nullptr, nullptr}; // last message received on a raw A (for forwarding)
 	uint32_t     tag       = 1;
 	std::set<std::string> states;
@@ -100,6 +101,21 @@ keep(World &W, int x, nng_msg *m)
 		W.last[0] = m; // keeps the routing header pushed by the raw socket
 	} else
 		nng_msg_free(m);
+}
+
+static World *gW;
+static void
+pipe_ev(nng_pipe p, nng_pipe_ev ev, void *)
+{
+	auto &v = gW->pipes;
+	if (ev == NNG_PIPE_EV_ADD_POST)
+		v.push_back(p);
+	else
+		for (size_t i = 0; i < v.size(); i++)
+			if (nng_pipe_id(v[i]) == nng_pipe_id(p)) {
+				v.erase(v.begin() + (long) i);
+				break;
+			}
 }
 
 // one direction of the probe
@@ -170,22 +186,52 @@ exec_c15(const vcase *vc)
 	if (h_begin(&cfg) != 0)
 		return 0;
 	vr_tagf("proto_%s", W.p->name);
+	gW = &W;
 	H_OK(W.p->open_a(&W.s[0]));
 	H_OK(W.p->open_b(&W.s[1]));
+	H_OK(W.p->open_b(&W.s[2]));
+	H_OK(nng_pipe_notify(W.s[0], NNG_PIPE_EV_ADD_POST, pipe_ev, NULL));
+	H_OK(nng_pipe_notify(W.s[0], NNG_PIPE_EV_REM_POST, pipe_ev, NULL));
 	H_OK(nng_listen(W.s[0], "inproc://c15", NULL, 0));
 	// subscribers take everything by default so that traffic flows
 	if (strcmp(W.p->name, "sub") == 0)
 		H_OK(nng_sub0_socket_subscribe(W.s[0], "", 0));
-	if (strcmp(W.p->name, "pub") == 0 || strcmp(W.p->name, "xpub") == 0)
+	if (strcmp(W.p->name, "pub") == 0 || strcmp(W.p->name, "xpub") == 0) {
 		H_OK(nng_sub0_socket_subscribe(W.s[1], "", 0));
+		H_OK(nng_sub0_socket_subscribe(W.s[2], "", 0));
+	}
 	vs_settle();
 
 	for (int i = 2; i < vc->nops; i++) {
 		const vop  *o = &vc->ops[i];
 		std::string n = o->name;
 		vr_at(i, o->name);
-		int x = (int) vop_arg(o, 0, 0) & 1;
-		if (n == "conn") {
+		int x = (int) vop_arg(o, 0, 0);
+		x     = x == 2 ? 2 : (x & 1);
+		if (n == "conn2") {
+			// a second peer (PAIR refuses it; the fan-in / fan-out protocols get a second pipe)
+			if (W.connected2)
+				continue;
+			H_OK(nng_dialer_create(&W.d2, W.s[2], "inproc://c15"));
+			nng_dialer_start(W.d2, NNG_FLAG_NONBLOCK);
+			W.connected2 = true;
+			vs_settle();
+			vr_tag("second_peer");
+		} else if (n == "drop2") {
+			if (!W.connected2)
+				continue;
+			nng_dialer_close(W.d2);
+			W.connected2 = false;
+			vs_settle();
+		} else if (n == "pclose") {
+			// the socket under test closes one of its own pipes (possibly one that holds an unread message)
+			if (W.pipes.empty())
+				continue;
+			nng_pipe p = W.pipes[(size_t) vop_arg(o, 1, 0) % W.pipes.size()];
+			nng_pipe_close(p);
+			vs_settle();
+			vr_tag("own_pipe_closed");
+		} else if (n == "conn") {
 			if (W.connected)
 				continue;
 			H_OK(nng_dial(W.s[1], "inproc://c15", &W.d, 0));
@@ -252,6 +298,7 @@ exec_c15(const vcase *vc)
 	for (int k = 0; k < 2; k++)
 		if (W.last[k])
 			nng_msg_free(W.last[k]);
+	nng_socket_close(W.s[2]);
 	nng_socket_close(W.s[1]);
 	nng_socket_close(W.s[0]);
 	h_end();
@@ -265,8 +312,8 @@ genOp()
 {
 	return gen::exec([]() {
 		std::ostringstream o;
-		int x = *gen::weightedElement<int>({{3, 0}, {2, 1}});
-		int k = *gen::weightedElement<int>({{10, 0}, {10, 1}, {6, 2}, {2, 3}, {1, 4}, {2, 5}, {2, 6}, {1, 7}, {1, 8}});
+		int x = *gen::weightedElement<int>({{3, 0}, {2, 1}, {1, 2}});
+		int k = *gen::weightedElement<int>({{10, 0}, {10, 1}, {6, 2}, {2, 3}, {1, 4}, {2, 5}, {2, 6}, {1, 7}, {1, 8}, {2, 9}, {1, 10}, {2, 11}});
 		switch (k) {
 		case 0: o << "send " << x; break;
 		case 1: o << "recv " << x; break;
@@ -277,6 +324,9 @@ genOp()
 		case 6: o << "rbuf " << x << " " << *pbt::range<int>(0, 4); break;
 		case 7: o << "wait 0 " << *gen::element(1, 20, 60, 200, 1100); break;
 		case 8: o << (*gen::arbitrary<bool>() ? "subs" : "unsubs"); break;
+		case 9: o << "conn2"; break;
+		case 10: o << "drop2"; break;
+		case 11: o << "pclose 0 " << *pbt::range<int>(0, 3); break;
 		}
 		return o.str();
 	});
